@@ -439,6 +439,17 @@ def _eval_unguarded(case):
                 calls += 1
                 if r3 != "T":
                     msgs.append("vertex.equals(vertex rebuilt from pose.copy()) -> %s %s for %r" % (r3, err3 or "", dx))
+                # the same vertex once it sits in a graph (at list position 2) vs a fresh copy, and vs its twin at another position of another graph
+                filler = [I.Vertex(-900 - j, I.mk_pose("R2", [0.0, 1.0 * j])) for j in range(3)]
+                xg = I.Vertex(x.id, x.pose.copy())
+                I.Graph([], filler[:2] + [xg])
+                xh = I.Vertex(x.id, x.pose.copy())
+                I.Graph([], [xh] + filler[2:])
+                for a_, b_, w in ((xg, xv, "vertex in a graph vs a fresh copy"), (xv, xg, "fresh copy vs vertex in a graph"), (xg, xh, "the same vertex at different positions of two graphs")):
+                    r4, err4 = _call(a_, b_, tol)
+                    calls += 1
+                    if r4 != "T":
+                        msgs.append("%s: equals -> %s %s for %r" % (w, r4, err4 or "", dx))
         return msgs, {"classes": classes, "outcome": "pair:%s:%s" % (fam, r), "calls": calls, "nontrivial": not same}
     # single-component perturbation
     dx = case["x"]
@@ -459,6 +470,21 @@ def _eval_unguarded(case):
     if k > 0 and X_digest(x) == X_digest(y):
         # the constructor absorbed the perturbation (an SE(2) angle changed by less than an ulp of pi is wrapped back onto itself)
         return [], {"classes": [], "outcome": "perturb:absorbed", "calls": 0, "nontrivial": False}
+    if fam == "graph" and (case["k"] + (1 if case["sgn"] > 0 else 0)) % 2 == 0:
+        # both graphs have been evaluated before they are compared (whatever they cache is not part of equality)
+        for g_ in (x, y):
+            try:
+                with np.errstate(all="ignore"):
+                    g_.calc_chi2()
+            except Exception:
+                pass
+    if fam == "edge":
+        # the edges were compared once while their information had another scale (re-weighted since)
+        for e_ in (x, y):
+            keep = e_.information
+            e_.information = 1e4 * np.asarray(keep, dtype=float)
+            _call(e_, e_, tol)
+            e_.information = keep
     r1, e1 = _call(x, y, tol)
     r2, e2 = _call(y, x, tol)
     want = "T" if k < 0 else "F"
